@@ -196,7 +196,10 @@ inline void fdOverX(Ctx &c, const std::string &mon, const OptCase &oc, const Opt
         // quickly in a decision variable); the finer value is used, the estimate widens the noise band
         double fdCoarse = stencil(h), fd = stencil(h / 2);
         double trunc = std::fabs(fdCoarse - fd);
-        double noise = (1e5 * 2.2e-16 / 0.5e-3 + 1e-8) * (Cabs + fmax) / sc + 2 * trunc;
+        // (cost programs with a deadline or a time window are only C2 in time: the 4th-order error law, and with it the
+        // halving estimate, is then optimistic when a sample crosses an edge inside the stencil; the band is widened)
+        const bool c2only = oc.prog.wn_w != 0 || oc.prog.dl_w != 0;
+        double noise = (1e5 * 2.2e-16 / 0.5e-3 + 1e-8) * (Cabs + fmax) / sc + (c2only ? 6 : 2) * trunc;
         if (trunc > 1e-6 * std::fabs(fd))
             c.event("fd_oracle_truncation_above_1e-6");
         acc.add(xGroup(*cp.e), grad(cp.idx), fd, noise);
